@@ -87,7 +87,12 @@ def make_poker(rng):
                     o = rng.choice(ops)
                     d.start_time(o, rng.choice(o.machines))
                     d.earliest_start_time(o)
-            elif c < 0.9:
+            elif c < 0.87:
+                # a public query with an argument: the answer for one list must not leak into another
+                ops = d.raw_ready_operations()
+                if ops:
+                    d.min_start_time(rng.sample(ops, rng.randint(1, len(ops))))
+            elif c < 0.93:
                 d.uncompleted_operations()
                 d.ongoing_operations()
             else:
@@ -271,6 +276,15 @@ def run_C05(tier, seed):
                 }
                 order = [rng.choice(qnames) for _ in range(rng.randint(3, 14))] + rng.sample(qnames, len(qnames))
                 for qn in order:
+                    if ready and rng.random() < 0.35:
+                        sub = rng.sample(ready, rng.randint(1, len(ready)))
+                        res.count("min-start-time-of-a-sub-list")
+                        got_ms = d.min_start_time([inst.jobs[j][p] for (j, p) in sub])
+                        if got_ms != model.min_start(sub):
+                            res.breach("min-start-time-of-a-sub-list", f"min_start_time({sub}) = {got_ms}, recomputation "
+                                       f"gives {model.min_start(sub)} (after queries {order})", jobs=jobs,
+                                       history=model.history, filter=flt_name)
+                            break
                     res.count("query-equals-recomputation")
                     val = getattr(d, qn)()
                     if qn == "current_time":
@@ -317,6 +331,24 @@ def run_C05(tier, seed):
                 if got != allops - set(sched) or uo.num_unscheduled_operations != model.N - model.n or not per_job_ok:
                     res.breach("unscheduled-observer-mirror", f"observer lists {sorted(got)}", jobs=jobs,
                                history=model.history)
+                elif model.history:
+                    # ... and after a reset followed by a second episode (a prefix of the same history)
+                    res.count("unscheduled-observer-mirror-after-reset")
+                    d2.reset()
+                    cut = rng.randint(0, len(model.history))
+                    m2 = Model(jobs)
+                    for (j, m) in model.history[:cut]:
+                        m2.apply(j, m)
+                    replay(d2, d2.instance, model.history[:cut])
+                    got = [key(o) for o in uo.unscheduled_operations]
+                    want_u = [(j, p) for j in range(len(jobs)) for p in range(m2.k[j], len(jobs[j]))]
+                    per_job_ok = all([key(o) for o in dq] == [(j, p) for p in range(m2.k[j], len(jobs[j]))]
+                                     for j, dq in enumerate(uo.unscheduled_operations_per_job))
+                    if sorted(got) != sorted(want_u) or uo.num_unscheduled_operations != m2.N - m2.n or not per_job_ok \
+                            or sorted(key(o) for o in d2.unscheduled_operations()) != sorted(want_u):
+                        res.breach("unscheduled-observer-mirror-after-reset",
+                                   f"after reset and {cut} dispatches the observer lists {sorted(got)}, expected "
+                                   f"{sorted(want_u)}", jobs=jobs, history=model.history, second_episode=model.history[:cut])
         res.sample({"jobs": jobs})
     return res
 
@@ -343,6 +375,18 @@ def run_C06(tier, seed):
                     prev_now = d.current_time()
                     prev_done = {id(o) for o in d.completed_operations()}
                     while True:
+                        if rng.random() < 0.5:
+                            # a client (e.g. a custom rule) asks for the minimum start time of some ready
+                            # operations before the clock is read
+                            ops = d.raw_ready_operations()
+                            if ops:
+                                sub = rng.sample(ops, rng.randint(1, len(ops)))
+                                res.count("min-start-time-of-a-sub-list")
+                                want_ms = model.min_start([(o.job_id, o.position_in_job) for o in sub])
+                                if d.min_start_time(sub) != want_ms:
+                                    res.breach("min-start-time-of-a-sub-list", "min_start_time of a sub-list of the ready "
+                                               f"operations differs from its recomputation {want_ms}", jobs=jobs,
+                                               history=model.history, filters=combo)
                         avail = d.available_operations()
                         res.count("now-monotone")
                         res.case((str(jobs), combo, tuple(model.history)))
